@@ -9,8 +9,9 @@ META = dict(
          "selected three-line events and all pairs of one-line events; each line (and each dispatching blank line) gets its ending "
          "drawn independently from {LF, CRLF, CR} (every assignment).  Every distinct byte stream is delivered to a fresh "
          "ioflo EventSource under every split into <= 3 receives (<= 4 for streams up to 24 bytes in thorough) with parse() after each "
-         "receive; events (id, name, data), retry and last event id must equal the reference interpretation of the bytes and the "
-         "one-piece parse.  States = (stream, split) schedules, transitions = parse() calls.",
+         "receive and, as a further environment choice, idle parse() calls with no new bytes between two receives (quick: at most one gap with one "
+         "idle pass; thorough: 0-2 in every gap for <= 3 receives); events (id, name, data), retry and last event id must equal the reference interpretation of the bytes and the "
+         "one-piece parse.  States = (stream, split, idle passes) schedules, transitions = parse() calls.",
     note="Bounded: <= 2 events, <= 3 field lines per event, <= 3 (4) receives.  Connection close / end-of-stream flushing, the BOM, "
          "json-decoded data and ids containing NUL are not exercised.  The reference follows ioflo's documented choice of not "
          "dispatching an event whose data is the empty string (the statement does not define that case).",
@@ -166,15 +167,20 @@ def innermost(ex):
     return fn
 
 
-def execute(pieces):
+def execute(pieces, gaps=()):
+    """gaps[i] = idle parse() calls (no new bytes) between piece i and piece i+1."""
     from ioflo.aio.http import httping
     es = httping.EventSource(raw=bytearray())
     steps = 0
     try:
-        for p in pieces:
+        for i, p in enumerate(pieces):
             es.raw.extend(p)
             steps += 1
             es.parse()
+            if i < len(gaps):
+                for _ in range(gaps[i]):
+                    steps += 1
+                    es.parse()
         steps += 1
         es.parse()          # one idle poll: nothing new may appear
     except Exception as ex:
@@ -191,6 +197,21 @@ def diff(a, b):
 
 
 CHUNK = 40
+_IDLE = {}
+
+
+def idle_schedules(npieces):
+    """Idle service passes between receives: quick = at most one gap with one idle parse();
+    thorough = 0, 1 or 2 idle passes in every gap, all combinations, for <= 3 receives."""
+    if npieces not in _IDLE:
+        if core.TIER == "thorough":
+            if npieces <= 3:
+                _IDLE[npieces] = split.idle_patterns(npieces, counts=(0, 1, 2), max_dev=None)
+            else:           # four receives: one gap with one idle pass (budget)
+                _IDLE[npieces] = split.idle_patterns(npieces, counts=(0, 1), max_dev=1)
+        else:
+            _IDLE[npieces] = split.idle_patterns(npieces, counts=(0, 1), max_dev=1)
+    return _IDLE[npieces]
 
 
 def work(arg):
@@ -227,20 +248,23 @@ def work(arg):
             for cuts, pieces in split.splits(wire, k):
                 if not cuts:
                     continue
-                obs, steps = execute(pieces)
-                part.states += 1
-                part.transitions += steps
-                part.traces += 1
-                part.evaluations += 1
-                part.nontrivial((wire, cuts))
-                d = diff(obs, whole)
-                if d is not None:
-                    part.notes["split-differs:" + s["cls"]] += 1
-                    part.violation("EventSource|split-vs-whole|%s" % s["cls"], split.show(pieces),
-                                   "EventSource gives a different result when the stream arrives as %s: %s = %r, whole parse %r, SSE rules %r"
-                                   % (split.show(pieces), d, obs.get(d), whole.get(d), ref.get(d)),
-                                   dict(stream=wire, lines=s["lines"], endings=s["endings"], cuts=list(cuts),
-                                        pieces=pieces, observed=obs, whole=whole, expected=ref))
+                for gaps in idle_schedules(len(pieces)):
+                    obs, steps = execute(pieces, gaps)
+                    part.states += 1
+                    part.transitions += steps
+                    part.traces += 1
+                    part.evaluations += 1
+                    part.nontrivial((wire, cuts, gaps))
+                    d = diff(obs, whole)
+                    if d is not None:
+                        part.notes["split-differs:" + s["cls"] + (":with-idle-passes" if any(gaps) else "")] += 1
+                        shown = split.show(pieces, gaps=gaps)
+                        part.violation("EventSource|split-vs-whole|%s" % s["cls"], shown,
+                                       "EventSource gives a different result when the stream arrives as %s%s: %s = %r, whole parse %r, SSE rules %r"
+                                       % (shown, " ('~' = parse() with no new bytes)" if any(gaps) else "", d, obs.get(d), whole.get(d), ref.get(d)),
+                                       dict(stream=wire, lines=s["lines"], endings=s["endings"], cuts=list(cuts),
+                                            pieces=pieces, idle_passes_between_pieces=list(gaps), observed=obs, whole=whole,
+                                            expected=ref))
             if (lo + si) % 997 == 0:
                 part.sample(dict(stream=wire, endings=s["endings"], reference=ref, schedules=split.count_splits(len(wire), k)))
     return part
@@ -259,10 +283,12 @@ def run():
         "space of the value removed; data lines joined by LF; blank line dispatches and resets name; id persists; retry only if all digits)",
         "an event whose joined data is the empty string is not dispatched (ioflo's documented behaviour; not defined by the statement)",
         "event name '' means 'not given'; last event id None means 'never set'",
+        "an idle pass is EventSource.parse() called while no new byte has arrived, as Respondent.parseBody does on every service pass",
         "compared after all bytes were delivered and parsed (plus one idle poll); end-of-stream flushing on close is not part of the property",
     ]
     return ck.finish(
-        rule="state = (byte stream, cut positions): every ending assignment in {LF,CRLF,CR}^lines of each logical stream (deduplicated by bytes), "
+        rule="state = (byte stream, cut positions, idle passes per gap): a service loop resumes the parser whether or not bytes arrived, so between two "
+             "receives the parser is resumed 0 or 1 times with no new bytes (<= 1 gap deviates; thorough 0-2 in every gap for <= 3 receives); every ending assignment in {LF,CRLF,CR}^lines of each logical stream (deduplicated by bytes), "
              "every split into <= k receives; transition = one EventSource.parse() call; trace = one fresh-EventSource execution compared with "
              "the reference and the whole parse",
         exhaustive=True)
